@@ -23,6 +23,11 @@ pub mod task {
     pub use tokio_real::task::*;
 }
 
+pub mod time {
+    //! Simulated clock (logical ticks, one per millisecond) instead of tokio's timer wheel.
+    pub use crate::sim::time::*;
+}
+
 pub mod io {
     pub use crate::sim::stdio::{stdin, stdout, Stdin, Stdout};
     pub use tokio_real::io::*;
@@ -101,6 +106,70 @@ pub mod sync {
                 res
             }
 
+            /// Waits for capacity (with a seeded yield point like `send`); the permit itself is
+            /// tokio's.
+            pub async fn reserve(&self) -> Result<real::Permit<'_, T>, error::SendError<()>> {
+                sim::yield_point(Op::SendTry, self.id).await;
+                let fut = self.inner.reserve();
+                tokio_real::pin!(fut);
+                let mut blocked = false;
+                let id = self.id;
+                std::future::poll_fn(|cx| match fut.as_mut().poll(cx) {
+                    Poll::Pending => {
+                        if !blocked {
+                            blocked = true;
+                            sim::event(Op::SendBlocked, id, 0);
+                        }
+                        Poll::Pending
+                    }
+                    ready => ready,
+                })
+                .await
+            }
+
+            pub async fn reserve_owned(self) -> Result<real::OwnedPermit<T>, error::SendError<()>> {
+                sim::yield_point(Op::SendTry, self.id).await;
+                self.inner.reserve_owned().await
+            }
+
+            pub fn try_reserve(&self) -> Result<real::Permit<'_, T>, error::TrySendError<()>> {
+                self.inner.try_reserve()
+            }
+
+            pub fn try_reserve_owned(self) -> Result<real::OwnedPermit<T>, error::TrySendError<Self>> {
+                let id = self.id;
+                self.inner.try_reserve_owned().map_err(|e| match e {
+                    error::TrySendError::Full(inner) => error::TrySendError::Full(Sender { inner, id }),
+                    error::TrySendError::Closed(inner) => error::TrySendError::Closed(Sender { inner, id }),
+                })
+            }
+
+            pub async fn send_timeout(&self, value: T, d: std::time::Duration) -> Result<(), error::SendTimeoutError<T>> {
+                // the simulated clock decides
+                let mut slot = Some(value);
+                match crate::sim::time::timeout(d, self.inner.reserve()).await {
+                    Ok(Ok(permit)) => {
+                        permit.send(slot.take().unwrap());
+                        sim::on_sent(self.id, true);
+                        Ok(())
+                    }
+                    Ok(Err(_)) => Err(error::SendTimeoutError::Closed(slot.take().unwrap())),
+                    Err(_) => Err(error::SendTimeoutError::Timeout(slot.take().unwrap())),
+                }
+            }
+
+            pub fn downgrade(&self) -> real::WeakSender<T> {
+                self.inner.downgrade()
+            }
+
+            pub fn strong_count(&self) -> usize {
+                self.inner.strong_count()
+            }
+
+            pub fn weak_count(&self) -> usize {
+                self.inner.weak_count()
+            }
+
             pub async fn closed(&self) {
                 self.inner.closed().await
             }
@@ -161,6 +230,35 @@ pub mod sync {
                     sim::on_received(self.id, true);
                 }
                 res
+            }
+
+            pub fn poll_recv(&mut self, cx: &mut std::task::Context<'_>) -> Poll<Option<T>> {
+                let res = self.inner.poll_recv(cx);
+                if let Poll::Ready(v) = &res {
+                    sim::on_received(self.id, v.is_some());
+                }
+                res
+            }
+
+            pub async fn recv_many(&mut self, buffer: &mut Vec<T>, limit: usize) -> usize {
+                sim::yield_point(Op::RecvTry, self.id).await;
+                let n = self.inner.recv_many(buffer, limit).await;
+                for _ in 0..n {
+                    sim::on_received(self.id, true);
+                }
+                n
+            }
+
+            pub fn capacity(&self) -> usize {
+                self.inner.capacity()
+            }
+
+            pub fn max_capacity(&self) -> usize {
+                self.inner.max_capacity()
+            }
+
+            pub fn sender_strong_count(&self) -> usize {
+                self.inner.sender_strong_count()
             }
 
             pub fn close(&mut self) {
